@@ -100,6 +100,8 @@ def run(ctx):
             if not in_range and j != i % 4:
                 continue
             cases.append({"code": c, "rep": rep, **shape})
+            if (i + j) % 7 == 0:
+                cases.append({"code": c, "rep": rep, **shape, "write": ("rendezvous_late", "full")[(i // 7) % 2]})
 
     mine = [c for c in cases if ctx.mine()]
 
@@ -123,7 +125,22 @@ def run(ctx):
                 outs.append((case, "unbuildable", e, direct))
                 continue
             rs, rr = anyio.create_memory_object_stream(4)
-            ws, wr = anyio.create_memory_object_stream(4)
+            # the write stream cannot always take the request at once: an unbuffered stream whose peer comes to read a
+            # moment later, a buffered one that is full until the peer drains it
+            wmode = case.get("write", "ready")
+            ws, wr = anyio.create_memory_object_stream(0 if wmode == "rendezvous_late" else (1 if wmode == "full" else 4))
+            drainer = None
+            if wmode == "full":
+                ws.send_nowait("(an earlier message still queued)")
+            if wmode != "ready":
+                async def _drain(wr=wr):
+                    await asyncio.sleep(0.05)
+                    try:
+                        while True:
+                            await wr.receive()
+                    except Exception:  # noqa
+                        pass
+                drainer = asyncio.create_task(_drain())
             rs.send_nowait(msg)
             try:
                 res = await send_message(rr, ws, "tools/list", None, timeout=1.0, message_id="e1")
@@ -132,6 +149,8 @@ def run(ctx):
                 if isinstance(e, (KeyboardInterrupt, SystemExit)):
                     raise
                 outs.append((case, "raise", e, direct))
+            if drainer is not None:
+                drainer.cancel()
             for s in (rs, rr, ws, wr):
                 s.close()
         return outs
